@@ -16,6 +16,7 @@ Arguments tl_try : simpl never.
 Arguments tl_rel_raises : simpl never.
 Arguments normalise : simpl never.
 Arguments faulty : simpl never.
+Arguments intr : simpl never.
 Arguments enabled : simpl never.
 
 (* ---------- the ghost flag viol is monotone --------------------------------------- *)
@@ -23,12 +24,12 @@ Arguments enabled : simpl never.
 Lemma viol_step_mono s t : viol s = true -> viol (step s t) = true.
 Proof.
   intros Hv. unfold step. destruct (negb (enabled s t)); auto.
-  destruct (t_pc (thr s t)) as [|a dl|a|a d|a d|a w|a oserr|o d k|o d k|o k]; cbn.
+  destruct (t_pc (thr s t)) as [|a dl|a|a d|a d i|a w|a oserr|o d k|o d k|o k]; cbn.
   - destruct (t_prog (thr s t)); auto. rewrite viol_begin_call, Hv. reflexivity.
   - destruct (tl_try _ _); [destruct (o_fd _)|]; cbn; auto.
-  - destruct (faulty s KOpen); [rewrite viol_after_attempt|]; cbn; auto.
+  - destruct (faulty s KOpen); [destruct (intr s KOpen); [rewrite viol_enter_cleanup|rewrite viol_after_attempt]|]; cbn; auto.
   - destruct (faulty s KLock); [|destruct (holder_free_for _ _)]; cbn; auto.
-  - destruct (faulty s KClose); [rewrite viol_enter_cleanup|rewrite viol_after_attempt]; rewrite viol_k_close; cbn; auto.
+  - destruct (faulty s KClose || i); [rewrite viol_enter_cleanup|rewrite viol_after_attempt]; rewrite viol_k_close; cbn; auto.
   - auto.
   - auto.
   - destruct (faulty s KUnlock); cbn; rewrite ?viol_k_unlock; cbn; auto.
@@ -108,7 +109,7 @@ Qed.
 
 (* initial states: any objects (process, reentrant?, default timeout), any threads
    (process, program), any fault script *)
-Definition init_cfg (ocfg : list (pid * bool * tmo)) (tcfg : list (pid * list call)) (fl : list (skind * nat)) : state :=
+Definition init_cfg (ocfg : list (pid * bool * tmo)) (tcfg : list (pid * list call)) (fl : list (skind * nat * bool)) : state :=
   init (map (fun c => obj0 (fst (fst c)) (snd (fst c)) (snd c)) ocfg)
        (map (fun c => thr0 (fst c) (snd c)) tcfg) fl.
 
@@ -194,15 +195,17 @@ Qed.
 Lemma step_frame s t t' : t' <> t -> thr (step s t) t' = thr s t' /\ dead (step s t) = dead s.
 Proof.
   intros Hn. unfold step. destruct (negb (enabled s t)); auto.
-  destruct (t_pc (thr s t)) as [|a dl|a|a d|a d|a w|a oserr|o d k|o d k|o k]; cbn.
+  destruct (t_pc (thr s t)) as [|a dl|a|a d|a d i|a w|a oserr|o d k|o d k|o k]; cbn.
   - destruct (t_prog (thr s t)); auto. now apply begin_call_frame.
   - destruct (tl_try _ _); [destruct (o_fd _)|]; cbn; rewrite !upd_other by auto; auto.
-  - destruct (faulty s KOpen); cbn.
+  - destruct (faulty s KOpen); [destruct (intr s KOpen)|]; cbn.
+    + rewrite (u_thr _ _ _ _ (ta_upd _ _ _ _ (Tail_enter_cleanup _ _ _ _))) by auto.
+      rewrite (u_dead _ _ _ _ (ta_upd _ _ _ _ (Tail_enter_cleanup _ _ _ _))). auto.
     + rewrite (u_thr _ _ _ _ (ta_upd _ _ _ _ (Tail_after_attempt _ _ _))) by auto.
       rewrite (u_dead _ _ _ _ (ta_upd _ _ _ _ (Tail_after_attempt _ _ _))). auto.
     + rewrite !upd_other by auto; auto.
   - destruct (faulty s KLock); [|destruct (holder_free_for _ _)]; cbn; rewrite !upd_other by auto; auto.
-  - destruct (faulty s KClose); cbn.
+  - destruct (faulty s KClose || i); cbn.
     + rewrite (u_thr _ _ _ _ (ta_upd _ _ _ _ (Tail_enter_cleanup _ _ _ _))) by auto.
       rewrite (u_dead _ _ _ _ (ta_upd _ _ _ _ (Tail_enter_cleanup _ _ _ _))).
       rewrite thr_k_close, dead_k_close. auto.
